@@ -294,6 +294,18 @@ void c06_case(Tape& t, Ctx& ctx) {
   ref.jacobian();
   RefEnergy rr = ref_energy(ref.C, Tl, S, D, true);
   RefSpline::Adjoint total = ref.adjoint(rr.dC, rr.dT);
+  {
+    // when the energy (hence its partials) is at rounding level - data sampled from a low-degree polynomial, e.g. straight-line motion -
+    // sigma and the partial-based natural magnitudes vanish while both sides keep rounding noise of the DATA: add the natural magnitude of
+    // an energy gradient built from the data magnitude (false alarm found by the seed sweep, s8 T14)
+    std::vector<ld> dn; ld dt_, Tmax;
+    energy_nat(c, dn, dt_, &Tmax);
+    for (int d = 0; d < D; ++d) {
+      for (int r = 0; r <= N; ++r) total.theta_nat(r, d) += dn[d];
+      for (int m = 1; m < S; ++m) { total.theta_nat(N + m, d) += dn[d] * RefSpline::ipow(Tmax, m); total.theta_nat(N + (S - 1) + m, d) += dn[d] * RefSpline::ipow(Tmax, m); }
+    }
+    for (int i = 0; i < N; ++i) total.times_nat(i) += dt_;
+  }
   // the adjoint's sigma for the energy: use abs values of the partials (cancellation-aware)
   std::string what = who + " getEnergyGrad (durations " + c.dur_shape + " ratio " + g6(c.ratio) + ")";
   if (!compare_with_ref<S>(ctx, ge, total, N, TAU_ADJ, what, "energy-gradient", (std::string("energy_grad_err_") + SplineOf<D, S>::name()).c_str())) return;
